@@ -1,7 +1,7 @@
 (** C19 — Lint reports are complete, ordered by line, and linting never fails.
     Statements only; proofs in Proofs/LintLaws.v. *)
 From Coq Require Import List ZArith NArith Bool Sorting.Permutation Sorting.Sorted.
-From RRSS Require Import Base.Outcome Base.Chars Front.Ast Lint.Lint Proofs.LintLaws.
+From RRSS Require Import Base.Outcome Base.Chars Base.F64 Base.F64Text Front.Ast Lint.Lint Proofs.LintLaws Proofs.LintTotal.
 Import ListNotations.
 
 (** the diagnostics returned are ordered by line *)
@@ -29,5 +29,18 @@ Theorem C19_sort_stable :
   forall n l, filter (on_line n) (sort_diags l) = filter (on_line n) l.
 Proof. exact sort_diags_stable. Qed.
 
+(** linting never fails: for every syntax tree the linter returns its diagnostics.  It has no error
+    path, and its one failure site (the digit arithmetic of the poetic template) is unreachable because
+    the printed text of a non-negative finite number consists of digits and periods only.  [fine r] is
+    [r = Ok _] or the model's own size budget ([OverBudget], a template of more than 100000 stars; the
+    implementation's digits are 0..9, a bound that is not proved here). *)
+Theorem C19_lint_total : forall p, fine (lint p).
+Proof. exact lint_total. Qed.
+
+Theorem C19_display_digits :
+  forall v, has_poetic_spelling v = true -> forallb digitish (f64_display v) = true.
+Proof. exact display_digits. Qed.
+
+Print Assumptions C19_lint_total.
 Print Assumptions C19_lint_sorted.
 Print Assumptions C19_lint_complete_stable.
